@@ -46,18 +46,23 @@ pub struct AllOptional {
     r#loop: Option<u32>,
     // a default key is the identifier as written (here with its trailing underscore)
     ref_: Option<u32>,
+    // the key is the VALUE of the string literal, however the literal is written
+    #[deb822(field = "X\u{2d}Esc\x2dKey")]
+    esc: Option<String>,
+    #[deb822(field = r"Raw-Key")]
+    raw: Option<String>,
 }
 fn extra_shapes<P: Backend>(o: &mut Outcome, feats: &[String]) where AllOptional: FromDeb822Paragraph<P> + ToDeb822Paragraph<P> {
     let be = P::NAME;
     let api = format!("{} derive on an all-optional struct", be);
     let values = [AllOptional::default(),
-        AllOptional { r#type: Some("deb".into()), words: Some(vec!["a".into(), "b".into()]), plain: Some(7), r#loop: Some(3), ref_: Some(9) },
-        AllOptional { r#type: None, words: Some(vec!["x".into()]), plain: None, r#loop: Some(0), ref_: None }];
+        AllOptional { r#type: Some("deb".into()), words: Some(vec!["a".into(), "b".into()]), plain: Some(7), r#loop: Some(3), ref_: Some(9), esc: Some("e".into()), raw: Some("r".into()) },
+        AllOptional { r#type: None, words: Some(vec!["x".into()]), plain: None, r#loop: Some(0), ref_: None, esc: None, raw: Some("r2".into()) }];
     for x in values.iter() {
         o.evals += 1;
         let r = guarded(&api, || {
             let p = <AllOptional as ToDeb822Paragraph<P>>::to_paragraph(x);
-            let want: Vec<(String, String)> = [x.r#type.clone().map(|v| ("Type".to_string(), v)), x.words.clone().map(|v| ("Words".to_string(), v.join(" "))), x.plain.map(|v| ("plain".to_string(), v.to_string())), x.ref_.map(|v| ("ref_".to_string(), v.to_string()))].into_iter().flatten().collect();
+            let want: Vec<(String, String)> = [x.r#type.clone().map(|v| ("Type".to_string(), v)), x.words.clone().map(|v| ("Words".to_string(), v.join(" "))), x.plain.map(|v| ("plain".to_string(), v.to_string())), x.ref_.map(|v| ("ref_".to_string(), v.to_string())), x.esc.clone().map(|v| ("X-Esc-Key".to_string(), v)), x.raw.clone().map(|v| ("Raw-Key".to_string(), v))].into_iter().flatten().collect();
             let known = |l: Vec<(String, String)>| -> Vec<(String, String)> { l.into_iter().filter(|(k, _)| !k.contains("loop")).collect() };
             if known(p.list()) != want { return Err(format!("to_paragraph gave {:?}, expected {:?}", p.list(), want)); }
             let back = <AllOptional as FromDeb822Paragraph<P>>::from_paragraph(&p).map_err(|e| format!("own paragraph rejected: {}", e))?;
